@@ -376,6 +376,32 @@ def Bag.withProduct (b : Bag) (outs : List BNode) : Bag × BNode :=
   ({ b with edges := b.edges ++ [{ edge := .product, ins := outs, out := p }], next := b.next + 1 }, p)
 
 
+inductive TupleErr where
+  /-- `FieldError`: a requested name is not defined or was discarded -/
+  | field
+  /-- `ValueError` of `inspect.Signature`: the same virtual name (which becomes a new input of the graph) requested twice -/
+  | value
+  deriving Repr, BEq, Inhabited
+
+/-- `GraphCompiler._compile(item)` for a tuple of names: the nodes of the names (`get_node`), a new input node for every virtual
+name that is no input of the container, and the product node above them -/
+def Bag.tupleRequest (b : Bag) (available : List BNode) (ns : List String) : Except TupleErr (Bag × BNode) :=
+  let step := fun (acc : Except TupleErr (Bag × List BNode × List String)) (n : String) =>
+    match acc with
+    | .error e => .error e
+    | .ok (bb, outs, fresh) =>
+      match b.getNode available n with
+      | .node o | .virtualInput (some o) => .ok (bb, outs ++ [o], fresh)
+      | .virtualInput none =>
+        if fresh.contains n then .error .value
+        else
+          let i : BNode := { id := bb.next, name := n }
+          .ok ({ bb with inputs := bb.inputs ++ [i], next := bb.next + 1 }, outs ++ [i], fresh ++ [n])
+      | .discarded | .undefined => .error .field
+  match ns.foldl step (.ok (b, [], [])) with
+  | .error e => .error e
+  | .ok (bb, outs, _) => .ok (bb.withProduct outs)
+
 /-! ### The hypothesis of the bag theorems, executable -/
 
 def Bag.nodes3 (b : Bag) : List BNode := b.inputs ++ b.outputs ++ edgeNodes b.edges
